@@ -344,6 +344,20 @@ class Analysis:
                                         "ref": k == "ref", "ptr": v, "pointee": ity["t"], "facts": st.facts})
                 if v[0] == "P":
                     return v
+            last = rv["p"]["p"][-1] if rv["p"]["p"] else None
+            if path and isinstance(last, dict) and "cidx" in last and not last.get("from_end") and isinstance(path[-1], int) and ty is not None:
+                # &slice[i] / &array[i] with a constant i (slice patterns): element i of the sequence the place denotes -
+                # a pointer into the same object at byte i * size_of(element), not a separate "field" object
+                inner = {"l": rv["p"]["l"], "p": rv["p"]["p"][:-1]}
+                pv = None
+                if inner["p"] and inner["p"][-1] == "*":
+                    pv = self.read_place(st, {"l": inner["l"], "p": inner["p"][:-1]})
+                esz = self.tenv.size(ty)
+                if pv is not None and pv[0] == "P" and esz is not None:
+                    return ("P", pv[1], pv[2] + Poly.const(path[-1]) * esz, None)
+                if esz is not None:
+                    b2 = ("field", base, path[:-1]) if path[:-1] else base
+                    return ("P", b2, Poly.const(path[-1]) * esz, None)
             if path:
                 return ("P", ("field", base, path), Poly.const(0), None)
             return ("P", base, Poly.const(0), None)
